@@ -149,4 +149,17 @@ func init() {
 		Outside:     []string{"concurrent broadcasters (schedules)", "duplicate-id and dead-letter events (C10, C09)", "remote subscribers"},
 		Assumptions: seqAssume("event-stream unit as for C09; L1 process unit as for C04"),
 	})
+
+	reg(&PropSpec{
+		ID: "C15",
+		Harnesses: func(tier string) []HarnessSpec {
+			return []HarnessSpec{{Name: "writer-reader-roundtrip", Pkg: "remote", Func: "ZZ_C15_RoundTrip", Params: pm("N", tierSel(tier, 2, 3), "SL", 2),
+				Witnesses: []string{"mixed-nil-sender", "unserialisable"}, Deadline: 30 * time.Minute}}
+		},
+		Bounds: func(tier string) string {
+			return fmt.Sprintf("batches of 1..%d messages to 2 targets on the receiving node; per message: sender absent or a PID whose address and id are symbolic strings of 1..2 bytes each (equal senders and senders differing only in the address/id split included), one of 2 type names, symbolic payload byte, symbolic 'cannot be serialised' flag", tierSel(tier, 2, 3))
+		},
+		Outside:     []string{"protobuf marshalling of payloads and of the Envelope itself (ProtoSerializer, MarshalVT/UnmarshalVT) and DRPC framing: serializer/deserializer are stubs and the Envelope value is handed over in memory", "a payload that is not a proto.Message (ProtoSerializer.TypeName type assertion)", "targets on several addresses (one stream writer serves one address)", "longer batches and strings"},
+		Assumptions: seqAssume("writer = real streamWriter.Invoke with a stub stream/conn; reader = real streamReader.Receive on a bare engine with recording processes; xxh3.Hash, where still used, is an uninterpreted function with injectivity instances"),
+	})
 }
